@@ -27,6 +27,7 @@ ID = "C13"
 LEVEL = "exploration"
 RULE = ("Hypothesis builds a whole model for a random target, a filter (mode include/exclude, species set drawn "
         "from the model's species plus unknown labels: empty, partial, full) and 1..3 further filters used as "
+        "(unknown labels include re-spellings of real ones in another letter case; lists of unknown labels only) "
         "competing views of the same parsed file together with a read order. Non-trivial = the filter removes at "
         "least one entry and keeps at least one; distinct = canonical JSON. The CLI is sampled.")
 ASSUMPTIONS = [
